@@ -225,8 +225,9 @@ int main ()
     // build the matrix through the model formula is not possible here (rotation takes an angle); use the composition law instead:
     O.put (Rat(normsq(v) - 1)); O.put (Rat(s*s + c*c - 1)); };
   OP("o.c14.basis") { Basis<double> b; unsigned n=A.nat(); for (unsigned i=0;i<n;i++) do_basis_op (b, A);
-    // named bases are exactly orthonormal; (elliptical: to rounding, compared with the model instead)
-    if (b.get_basis() != Signal::Elliptical) {
+    // named bases are exactly orthonormal; elliptical ones to rounding (the residuals are exact rationals of the double entries;
+    // the acceptance test on the Python side applies a tolerance for them)
+    {
       Matrix<3,3,Rat> m; for (unsigned i=0;i<3;i++) m[i] = Vector<3,Rat>(b.get_basis_vector(i));
       Matrix<3,3,Rat> I; matrix_identity (I); Matrix<3,3,Rat> mm = m*transpose(m); O.put (Matrix<3,3,Rat>(mm-I));
       Rat det = m[0]*cross(m[1],m[2]); O.put (Rat(det-1));
